@@ -131,6 +131,23 @@ Definition Vgetnext (g : VGROUP) (id : Z) : option Z :=
   else getnext_loop g id (idx g).
 Definition opt_bytes (o : option bytes) : bytes := match o with Some b => b | None => [] end.
 
+(** the same operations as VGraphSpec.l_apply, performed on the arrays *)
+Definition m_apply (g : VGROUP) (o : mop) : VGROUP * mres :=
+  match o with
+  | MAdd t r => let '(g', n) := Vaddtagref g t r in (g', MNum n)
+  | MInsert t r => match Vinsert g (w16 t) (w16 r) with Some (g', i) => (g', MNum i) | None => (g, MFail) end
+  | MDel t r => match Vdeletetagref g t r with Some g' => (g', MNum 0) | None => (g, MFail) end
+  | MCount => (g, MNum (nvelt g))
+  | MGetAll n => (g, MPairs (Vgettagrefs g n))
+  | MGet i => (g, match Vgettagref g i with Some p => MPairs [p] | None => MFail end)
+  | MInq t r => (g, MBool (Vinqtagref g t r))
+  end.
+Fixpoint m_run (g : VGROUP) (ops : list mop) : VGROUP * list mres :=
+  match ops with
+  | [] => (g, [])
+  | o :: r => let '(g1, x) := m_apply g o in let '(g2, xs) := m_run g1 r in (g2, x :: xs)
+  end.
+
 (* ---- the DFTAG_VG record ---------------------------------------------------------------------------- *)
 Definition enc16 (v : Z) : bytes := [(v / 256) mod 256; v mod 256].
 Definition enc32 (v : Z) : bytes := [(v / 16777216) mod 256; (v / 65536) mod 256; (v / 256) mod 256; v mod 256].
